@@ -186,10 +186,7 @@ def _check_opchains(inp, opmap, qd):
     except Exception as e:
         return fails + [f'graph walk failed: {e}']
     fails += _words_close(got, ref)
-    nnz = sum(1 for c in chains if c.coeff != 0)
     widths = W.layer_widths(g)
-    if any(w > max(nnz, 1) for w in widths):
-        fails.append(f'C20: layer widths {widths} exceed number of non-zero chains {nnz}')
     if opmap is not None:
         try:
             mpo = MPO.from_opgraph(qd, g, opmap, compute_nid_map=True)
@@ -1406,6 +1403,92 @@ def check_graph_alias(inp):
         mpo.zero_qnumbers(); mpo.qd += 1
         if any(not np.array_equal(opmap[k], o0[k]) for k in opmap) or list(qd) != [0, 0]:
             fails.append('mutating the MPO changed the operator map / qd argument')
+    return fails
+
+
+# ------------------------------------------------------------------------------------------- C20
+
+@check('opchains_c20')
+def check_opchains_c20(inp):
+    from pytenet.opchain import OpChain
+    from pytenet.opgraph import OpGraph
+    from refs import words as W
+    chains = [OpChain(c['oids'], c['qnums'], c['coeff'], c['istart']) for c in inp['chains']]
+    nnz = sum(1 for c in chains if c.coeff != 0)
+    if nnz == 0:
+        return []
+    try:
+        g = OpGraph.from_opchains(chains, inp['L'], 0)
+        widths = W.layer_widths(g)
+    except Exception:
+        return []      # failures of the construction itself belong to C05
+    if any(w > nnz for w in widths):
+        return [f'layer widths {widths} exceed the number of chains with non-zero coefficient ({nnz})']
+    return []
+
+
+@check('graph_c20')
+def check_graph_c20(inp):
+    from refs import words as W
+    op = inp['op']
+    g = _graph_from_json(inp['graph'])
+    if not g.is_consistent():
+        return []
+    w0 = W.layer_widths(g)
+    try:
+        if op == 'simplify':
+            g.simplify()
+        elif op == 'seq2':
+            g.simplify(); g.flip(); g.simplify(); g.flip()
+        elif op == 'merge':
+            g.merge_edges(inp['eid1'], inp['eid2'], inp['direction'])
+        elif op == 'add':
+            other = _graph_from_json(inp['other'])
+            wo = W.layer_widths(other)
+            g.add(other)
+            w0 = [a + b for a, b in zip(w0, wo)]; w0[0] = w0[-1] = 1
+        w1 = W.layer_widths(g)
+    except Exception:
+        return []      # belongs to C16
+    if len(w1) != len(w0) or any(a > b for a, b in zip(w1, w0)):
+        return [f'a layer width increased: {w0} -> {w1}']
+    return []
+
+
+@check('schmidt_rank')
+def check_schmidt_rank(inp):
+    """bond dimension at every cut equals the operator Schmidt rank of the dense operator (numerical SVD rank)"""
+    import pytenet as ptn
+    model, L, d, p = inp['model'], inp['L'], inp['d'], inp['params']
+    try:
+        if model == 'ising':
+            mpo = ptn.ising_mpo(L, *p)
+        elif model == 'heisenberg_xxz':
+            mpo = ptn.heisenberg_xxz_mpo(L, *p)
+        elif model == 'heisenberg_xxz_spin1':
+            mpo = ptn.heisenberg_xxz_spin1_mpo(L, *p)
+        elif model == 'bose_hubbard':
+            mpo = ptn.bose_hubbard_mpo(d, L, *p)
+        elif model == 'fermi_hubbard':
+            mpo = ptn.fermi_hubbard_mpo(L, *p)
+        elif model == 'linear_fermionic':
+            mpo = ptn.linear_fermionic_mpo(p, inp.get('ftype', 'c'))
+        elif model == 'molecular':
+            mpo = ptn.molecular_hamiltonian_mpo(np.array(p[0]), np.array(p[1]), optimize=True)
+        else:
+            return []
+        M = mpo.as_matrix()
+    except Exception:
+        return []
+    fails = []
+    T = np.asarray(M).reshape((d,) * (2 * L))      # (s_1..s_L, t_1..t_L)
+    for cut in range(1, L):
+        perm = list(range(cut)) + list(range(L, L + cut)) + list(range(cut, L)) + list(range(L + cut, 2 * L))
+        R = T.transpose(perm).reshape((d ** (2 * cut), d ** (2 * (L - cut))))
+        sv = np.linalg.svd(R, compute_uv=False)
+        rank = int(np.sum(sv > 1e-10 * max(1.0, sv[0]))) if len(sv) else 0
+        if mpo.bond_dims[cut] != rank:
+            fails.append(f'{model} L={L}: bond dimension {mpo.bond_dims[cut]} at cut {cut} != operator Schmidt rank {rank}')
     return fails
 
 # -------------------------------------------------------------------------------------------
